@@ -59,6 +59,9 @@ func main() {
 	case "funcs":
 		cfg.Prop = strings.ToUpper(os.Args[2])
 		os.Exit(listFuncs(cfg, os.Args[3]))
+	case "sources":
+		cfg.Prop = strings.ToUpper(os.Args[2])
+		os.Exit(listSources(cfg))
 	case "selftest":
 		os.Exit(0)
 	case "replay":
